@@ -146,3 +146,9 @@ partial('C17', 'Proved (kernel only) for EVERY finite linear-RGB pixel of [0,1]^
         'the theorem shows the neighbouring formulas agree to 60*1.2e-7/(max-min) there, and that the two wrap-around steps only move the hue by a multiple of 360 up to 3e-5); L = 0 decodes to exactly black and L = 1 to exactly white for every finite hue in [0,360) and saturation in [0,1] (black_white). '
         'NOT proved: the round trip LinearRgb -> Hsl -> LinearRgb within 1e-5 (bit-exact correspondence + oracle) - hence category other.',
         'Lean 4 real-semantics proofs incl. monotone/exact rounding, fmod, max/min; correspondence + hexcone oracle for the round trip')
+
+proof('C17', 'Every clause is machine-checked (kernel only) for EVERY finite linear-RGB pixel of [0,1]^3: H in [0,360), S in [0,1], L in [0,1] exactly (hue_range, saturation_range, lightness - exact ranges via the monotonicity of correct rounding); L within 1.3e-7 of (max+min)/2; '
+      'S within 1e-4 of (max-min)/(1-|2L-1|) for 0.01 <= L <= 0.99 (saturation_accurate); H within 0.01 degrees on the circle of the hexcone hue of the sextant of the maximum channel when max-min >= 0.01 (hue_accurate); LinearRgb -> Hsl -> LinearRgb returns the pixel within 1e-5 per component '
+      '(hsl_roundtrip / api_hsl_roundtrip, proved bound 5.5e-6: the chroma recomputed by the inverse uses the SAME denominator bit for bit, so division and multiplication cancel whatever its size; the fmod is exact; the float sextant selection equals the closed-form 1-Lipschitz hexcone ramps; '
+      'the hue error is of order (rounding + 1.2e-7/chroma) and is multiplied back by the chroma); L = 0 decodes to exactly black and L = 1 to exactly white for every finite hue in [0,360) and saturation in [0,1] (black_white). Pixels are assumed to be f32 bit patterns (below 2^32), as every f32 is.',
+      'Lean 4 real-semantics proofs (monotone/exact rounding, exact fmod, max/min, hexcone model with Lipschitz ramps); correspondence ties the model to the code')
